@@ -170,4 +170,19 @@ PROPS = {
             "thorough": [dict(test="TestC01Cluster", checks=1500, shards=16, timeout=3400, env={"VERIF_MAXEV": 400})],
         },
     ),
+    "C14": dict(
+        kind="ext", pkg="./c14", level="exploration", engine="valgen",
+        extra_builds={"hash": dict(kind="inpkg", pkg="./core/consensus/qbft", overlay=[("c14hash", "core/consensus/qbft")])},
+        technique="property-based round-trip and structural-mutation testing (rapid) over generated values of every core type and fork; totality oracle = no panic in any operation the receive / decide / store / re-encode paths apply to a decoded value; determinism checked against the consensus package's own hash",
+        level_text="Round trips through JSON, SSZ and the protobuf set converters for every core data type and fork version (content, signing root, signature, share index, clone equality and disjointness, deterministic bytes, order-independent consensus hash); "
+                   "structurally mutated / truncated / spliced / type-confused / arbitrary encodings are pushed through decode and every later operation of the real receive and decide paths, where any panic is a crash of the process.",
+        level_note="The receive and decide paths are exercised by calling the production functions in production order (decode, eth2 verifier, parsigdb, sigagg, aggsigdb, broadcaster re-encode; decode, dutydb.Store, Await*, re-encode) rather than through live components; "
+                   "native fuzzing only in the thorough tier.",
+        runs={
+            "quick": [dict(test="TestC14RoundTrip", checks=500, shards=2), dict(test="TestC14Mutations", checks=1300, shards=5, shrinktime="10s"),
+                      dict(test="TestC14Regression", mode="plain"), dict(test="TestC14ConsensusHashDeterministic", checks=400, bin="hash")],
+            "thorough": [dict(test="TestC14RoundTrip", checks=20000, shards=4, timeout=3000), dict(test="TestC14Mutations", checks=150000, shards=11, timeout=3000),
+                         dict(test="TestC14Regression", mode="plain"), dict(test="TestC14ConsensusHashDeterministic", checks=20000, bin="hash", timeout=3000)],
+        },
+    ),
 }
